@@ -375,6 +375,73 @@ def Face.straddles (μ : Inside) (verts : List P3) (f : Face) : Bool :=
   let i := fun k => μ (verts.getD k ⟨0, 0, 0⟩)
   !(i f.a == i f.b && i f.b == i f.c)
 
+/-! ### VoxelNeuron -/
+
+/-- what C18 observes of a `VoxelNeuron` built from an `(N,3)` voxel table: the voxel indices (rows of `x.voxels`), the
+parallel `x.values`, `x.units_xyz.magnitude` and `x.offset` (integers here) -/
+structure Vox where
+  cells : List P3
+  values : List Int
+  units : P3
+  offset : P3
+deriving DecidableEq, Repr, Inhabited
+
+/-- `x.voxels * units + units / 2 + offset`, in doubled coordinates (a half-integer point iff all units are odd) -/
+def Vox.centre2 (v : Vox) (c : P3) : P3 :=
+  ⟨2 * (c.x * v.units.x) + v.units.x + 2 * v.offset.x, 2 * (c.y * v.units.y) + v.units.y + 2 * v.offset.y,
+   2 * (c.z * v.units.z) + v.units.z + 2 * v.offset.z⟩
+
+structure VoxOut where
+  cells : List P3
+  values : List Int
+deriving DecidableEq, Repr, Inhabited
+
+/-- `values = x.values[in_v]; x._data = x.voxels[in_v]; x.values = values` (only `if not all(in_v)`) -/
+def inVolumeVox (μ : Inside) (mode : Mode) (v : Vox) : VoxOut :=
+  if (keepMask mode (inVolumePoints μ (v.cells.map v.centre2))).all id then ⟨v.cells, v.values⟩
+  else ⟨masked v.cells (keepMask mode (inVolumePoints μ (v.cells.map v.centre2))),
+        masked v.values (keepMask mode (inVolumePoints μ (v.cells.map v.centre2)))⟩
+
+/-! ### back-end selection and ray counts (`in_volume`, `in_volume_ncoll`, `in_volume_pyoc`) -/
+
+/-- `for b in backend: if b == 'ncollpyde' and ncollpyde: … elif b == 'pyoctree' and pyoctree: … elif b == 'scipy': …` —
+the first requested back-end that is available (`scipy` always is); `none` = `ValueError('None of the specified backends
+were available')` -/
+def selectBackend (available : String → Bool) : List String → Option String
+  | [] => none
+  | b :: t => if b == "scipy" || available b then some b else selectBackend available t
+
+/-- result of the ray-count preamble of a ray-casting back-end -/
+inductive Rays where
+  | ok (n : Nat)
+  | valueError
+deriving DecidableEq, Repr, Inhabited
+
+/-- `if n_rays is None: n_rays = default`; `if n_rays <= 0: raise ValueError` (a non-integer raises `TypeError` before) -/
+def effRays (default : Nat) : Option Int → Rays
+  | none => .ok default
+  | some n => if n ≤ 0 then .valueError else .ok n.toNat
+
+/-! ### `in_volume_pyoc`: bounding-box pre-filter and ray consensus
+
+```
+is_out = (points > mx).any(axis=1) | (points < mn).any(axis=1)
+for i in range(n_rays):
+    in_points = points[~is_out]                      # only points still "in" are re-tested
+    …is_even = parity of the intersections of ray i with the mesh above each of those points…
+    is_out[~is_out] = is_even
+return ~is_out
+```
+A ray is abstracted to its verdict `odd : α → Bool` ("an odd number of crossings": inside); the state is the list of
+`(point, is_out)` pairs. -/
+
+/-- one iteration: `is_out[~is_out] = is_even` -/
+def pyocRay {α} (odd : α → Bool) (st : List (α × Bool)) : List (α × Bool) :=
+  st.map fun x => (x.1, if x.2 then true else !odd x.1)
+
+def pyocLoop {α} (inBBox : α → Bool) (rays : List (α → Bool)) (pts : List α) : List Bool :=
+  (rays.foldl (fun st r => pyocRay r st) (pts.map fun p => (p, !inBBox p))).map fun x => !x.2
+
 /-! ## run-time checkers evaluated by the driver on navis' own output (soundness: `Props/C18`) -/
 
 /-- `a` and `b` partition `all`: together a permutation of `all`, nothing in common -/
@@ -392,5 +459,12 @@ def checkNearest (data : List P3) (p : P3) (ix : Nat) (dd : Int) : Bool :=
 
 /-- the mask navis returns for points is the exact membership -/
 def checkMask (μ : Inside) (pts : List P3) (mask : List Bool) : Bool := mask == inVolumePoints μ pts
+
+/-- the rows `(voxel, value)` navis keeps are exactly the rows whose voxel centre the mode keeps, in order -/
+def checkVoxKept (μ : Inside) (mode : Mode) (v : Vox) (kept : List (P3 × Int)) : Bool :=
+  kept == (v.cells.zip v.values).filter fun cv =>
+    match mode with
+    | .IN => μ (v.centre2 cv.1)
+    | .OUT => !μ (v.centre2 cv.1)
 
 end Navis.Volume
